@@ -79,6 +79,8 @@ type plan struct {
 	bgVisitor bool // a read-only metadata visitor (what "acra-tokens status" does) runs concurrently with the calls
 	exhaust   bool
 	script    []scriptItem
+	pools     int  // Redis histories: independent connection pools on the one server (goroutine g calls through pool g mod pools)
+	foreign   bool // Redis histories: the database also holds keys of other applications (redis.go)
 }
 
 var maintKinds = []string{"none", "status", "disable-enable", "remove-all", "disable-remove-disabled", "remove-disabled-none-disabled", "dry-run", "date-limits-match-nothing", "date-limits-match-all", "none"}
@@ -111,10 +113,13 @@ func layersFor(consistent bool) []layer {
 
 var detokLayers = []layer{lPseudo, lTranslator, lDataTok, lColumn}
 
-func makePlan(r *ev.Run, idx int) *plan {
+func makePlan(r *ev.Run, idx int) *plan { return makePlanOn(r, idx, storeKinds[idx%4]) }
+
+// makePlanOn: the plan of history idx on the given store kind (Redis histories have indices of their own, redis.go).
+func makePlanOn(r *ev.Run, idx int, kind storeKind) *plan {
 	rng := gen.New(r.Seed, fmt.Sprintf("c10-history-%d", idx))
 	p := &plan{idx: idx}
-	p.kind = storeKinds[idx%4]
+	p.kind = kind
 	p.nosync = idx%16 >= 4 // one BoltDB history in four keeps the default fsync-per-transaction behaviour
 	// two groups of four histories (one per store kind) in seven run with an access-time granularity of 0 / 1ns: every Get
 	// refreshes the record's access time (BoltDB: writes the record back); no fsync there, every read is also a write
@@ -149,8 +154,12 @@ func makePlan(r *ev.Run, idx int) *plan {
 	// acra-tokens subcommands in a child process: every maintenance kind once per 40 histories (quick), alternating plain / encrypted BoltDB
 	j := idx / 4
 	p.cli = p.kind.bolt && p.maint != "none" && (j/10)%r.Pick(5, 8) == 0 && (idx%4 == 2+j%2)
-	if p.kind.bolt && p.maint == "none" && rng.Intn(2) == 0 {
-		p.maint = "reopen"
+	if (p.kind.bolt || p.kind.redis) && p.maint == "none" && rng.Intn(2) == 0 {
+		p.maint = "reopen" // Redis: the connection pools are closed and opened again
+	}
+	if p.kind.redis {
+		p.pools = 1 + (idx/2)%3
+		p.foreign = (idx/2)%4 != 3
 	}
 	p.bgVisitor = rng.Intn(4) == 0
 	p.exhaust = idx%25 == 7 && p.mode != "random"
@@ -187,6 +196,9 @@ func makePlan(r *ev.Run, idx int) *plan {
 			nStream := 3 + rng.Intn(4)
 			if !p.kind.bolt { // in-memory calls are cheap: many more contended first calls per history
 				nStream = 10 + rng.Intn(10)
+			}
+			if p.kind.redis { // a call is a few loopback round trips
+				nStream = 6 + nStream/3
 			}
 			sc := rng.Intn(3)
 			for i := 0; i < nStream; i++ {
@@ -375,6 +387,19 @@ func pubKey(ctx, val int) string { return fmt.Sprintf("%d/%d", ctx, val) }
 
 func (h *history) tick() int64 { return atomic.AddInt64(&h.clock, 1) }
 
+// rigOf: the entry points goroutine g calls through. One set per history, except on Redis where goroutine g uses connection
+// pool g mod pools (each pool has a token storage object, tokenizer stack and translator service of its own on the one server).
+func (h *history) rigOf(g int) *rig {
+	if n := len(h.rig.peers); n > 0 {
+		if k := g % (n + 1); k > 0 {
+			return h.rig.peers[k-1]
+		}
+	}
+	return h.rig
+}
+
+func (h *history) poolOf(g int) int { return g % (len(h.rig.peers) + 1) }
+
 func (h *history) record(e *event) {
 	h.mu.Lock()
 	h.evs = append(h.evs, e)
@@ -441,7 +466,8 @@ func (h *history) doTokenize(g, phIdx int, ph *phase, o opSpec) (*event, bool) {
 	v := h.p.pool[o.val].v
 	e := &event{g: g, phase: phIdx, phaseName: ph.name, relaxed: ph.relaxed, op: "tokenize", layer: o.layer, consistent: o.consistent, ctx: o.ctx, octx: o.ctx, in: v}
 	e.call = h.tick()
-	e.out, e.problem, e.err, e.pan = guarded(func() (tval, string, error) { return h.rig.tokenize(o.layer, o.consistent, o.ctx, v) })
+	rg := h.rigOf(g)
+	e.out, e.problem, e.err, e.pan = guarded(func() (tval, string, error) { return rg.tokenize(o.layer, o.consistent, o.ctx, v) })
 	e.ret = h.tick()
 	h.record(e)
 	if e.ok() {
@@ -457,7 +483,8 @@ func (h *history) doDetokenize(g, phIdx int, ph *phase, l layer, ctx int, role s
 		e.want, e.hasWant = *want, true
 	}
 	e.call = h.tick()
-	e.out, e.problem, e.err, e.pan = guarded(func() (tval, string, error) { return h.rig.detokenize(l, ctx, tok) })
+	rg := h.rigOf(g)
+	e.out, e.problem, e.err, e.pan = guarded(func() (tval, string, error) { return rg.detokenize(l, ctx, tok) })
 	e.ret = h.tick()
 	h.record(e)
 }
@@ -563,6 +590,12 @@ func runHistory(r *ev.Run, p *plan, ks ksrig.FullKeyStore) {
 		return
 	}
 	defer g.discard()
+	if p.kind.redis {
+		if err := redisPrepareHistory(r, p, g); err != nil {
+			r.Inconclusive(fmt.Sprintf("history %d: %v", p.idx, err))
+			return
+		}
+	}
 	h := &history{p: p, r: r, rig: g, pub: map[string][]pubEntry{}, fixed: map[string]tval{}, live: map[string]tval{}, contended: map[string]bool{}}
 	phIdx := 0
 	for _, it := range p.script {
@@ -593,6 +626,9 @@ func runHistory(r *ev.Run, p *plan, ks ksrig.FullKeyStore) {
 		// every Get refreshed the record it read: use a sample of the tokens again, three times each (reuse.go)
 		h.reuseSweep(phIdx)
 	}
+	if p.kind.redis {
+		redisFinishHistory(h)
+	}
 	h.summarize()
 }
 
@@ -601,7 +637,7 @@ func Run(r *ev.Run) {
 	r.Rule = "a case is one history: (store kind in {memory,BoltDB} x {plain, encrypting wrapper}) x mode {consistent, random, mixed} x 1-2 token types x value pool (boundary values shared by all 3 client contexts, values unique to one context, fresh values every goroutine tokenizes in the same order) x 2-16 goroutines x per-goroutine op lists over the entry points {Pseudoanonymizer generic/typed, TranslatorService, DataTokenizer text form, TokenEncryptor/TokenProcessor} x a maintenance script (none, status, disable..enable, remove all, disable..remove only disabled, remove only disabled with nothing disabled, dry run, date limits matching nothing/everything, BoltDB close+reopen; through the acra-tokens subcommands in a child process or through the storage visitor); all generated from (seed, history index). Plus a fixed list of decimal boundary texts per integer column, store kind and text entry point, an e-mail shape matrix (9 short e-mail-shaped values x 96 random-mode tokenizations each; distinct = value lengths for which at least two different top-level domains were drawn), a tokens-used-again matrix (4 store kinds x access-time granularity {24 h default, 0, 1ns} x 5 types x 4 values x {consistent, random}: creation, then three rounds of owner detokenize + consistent tokenize again; distinct = (store configuration, type) where every use answered correctly), and a disabled-token matrix (every boundary value of every type tokenized in both modes on every store kind, all records disabled, every token detokenized through every detokenize entry point, all enabled back, detokenized again; distinct = (store kind, type, entry point) where a token different from its value came back as itself while disabled and as the original afterwards). A history is non-trivial when at least one consistent key had two tokenize calls overlapping in logical time and every oracle saw events; distinct = (store kind, mode, types, goroutine class, maintenance kind, via cli/direct, contention seen) tuples of such histories"
 	r.Assumptions = []string{
 		"crypto library replaced by the pure-Go gothemis stand-in (used by the encrypting token-store wrapper through acrablock); AEAD strength is the stand-in's",
-		"token stores covered: in-memory and BoltDB (go.etcd.io/bbolt file in a scratch directory), each plain and behind storage.WrapStorageWithEncryption(NewSCellEncryptor(keystore)); the Redis token store is NOT covered (no Redis server in the sandbox)",
+		"token stores covered: in-memory and BoltDB (go.etcd.io/bbolt file in a scratch directory), each plain and behind storage.WrapStorageWithEncryption(NewSCellEncryptor(keystore)); the Redis token store (pseudonymization/storage.RedisStorage through go-redis v7, opened with NewRedisClient + NewRedisStorage like the servers do, plain and behind the same wrapper) runs against the in-process stand-in server rig/fakeredis (RESP2, atomic totally ordered commands, SCAN paging over the whole keyspace, no real Redis in the sandbox): everything above the TCP connection is Acra's code, the server's behaviour is the stand-in's",
 		"entry points driven in-process: Pseudoanonymizer (generic and typed methods), DataTokenizer, TokenEncryptor.EncryptWithClientID, TokenProcessor.OnColumn, TranslatorService.Tokenize/Detokenize; acra-tokens status/disable/enable/remove run as real subcommands (Parse+Execute) in a child process on the closed BoltDB file, and as the same visitor actions through TokenStorage.VisitMetadata for in-memory stores; SQL-statement rewriting (query tokenizers) and the wire are other properties' (C04/C19)",
 		"maintenance happens at quiescence (between phases of concurrent calls), as the property text says 'in between'; only a read-only metadata visitor runs concurrently with calls",
 		"the access-time granularity of a token store (TokenStorage.SetAccessTimeGranularity, default 24 h) is driven as configuration: default, 0 and 1ns; with 0 / 1ns every Get refreshes the record's access time (BoltDB: writes the record back in a second transaction - observed through BoltDB's transaction id, not through the clock), which is what a Get does in production to a record idle for more than a day; no command-line option of the pinned tree sets the granularity, the idle-for-a-day path itself cannot be driven without a clock",
@@ -663,8 +699,11 @@ func Run(r *ev.Run) {
 	close(ch)
 	wg.Wait()
 
+	// the same layers and what only Redis has, over Acra's Redis token store (redis.go)
+	redisLayer(r, ks)
+
 	// non-vacuity: every oracle must have seen events, on every store kind
-	r.RequireSetAtLeast("store_kinds_with_contended_consistent_keys", 4)
+	r.RequireSetAtLeast("store_kinds_with_contended_consistent_keys", 6)
 	r.RequireAtLeast("consistent_keys_with_overlapping_first_calls", int64(r.Pick(40, 400)))
 	r.RequireAtLeast("linearizability_partitions_checked", int64(r.Pick(300, 3000)))
 	r.RequireAtLeast("format_checked", int64(r.Pick(1500, 15000)))
@@ -686,8 +725,8 @@ func Run(r *ev.Run) {
 	r.RequireAtLeast("maintenance_steps_direct", int64(r.Pick(40, 400)))
 	r.RequireAtLeast("disabled_phase_tokenize_refused", 5)
 	// disabled tokens: every (store kind, type, detokenize entry point) was observed with a disabled token that differs from its value, and again after enable
-	r.RequireSetAtLeast("disabled_token_judged_distinguishable_store_type_entry", 80)
-	r.RequireSetAtLeast("reenabled_token_judged_store_type_entry", 80)
+	r.RequireSetAtLeast("disabled_token_judged_distinguishable_store_type_entry", 120)
+	r.RequireSetAtLeast("reenabled_token_judged_store_type_entry", 120)
 	r.RequireAtLeast("disabled_token_detokenize_judged:matrix", 1500)
 	r.RequireAtLeast("reenabled_token_detokenize_judged:matrix", 1500)
 	r.RequireAtLeast("disabled_token_detokenize_judged:sweep", int64(r.Pick(400, 4000)))
@@ -695,7 +734,7 @@ func Run(r *ev.Run) {
 	r.RequireAtLeast("disabled_token_detokenize_judged:concurrent-calls", int64(r.Pick(15, 150)))
 	r.RequireAtLeast("tokens_survived_partial_removal", 3)
 	// tokens used again: every (store kind, granularity, type) was driven, and with granularity 0 / 1ns the BoltDB reads really wrote the record back
-	r.RequireSetAtLeast("reuse_matrix_config_type", 60)
+	r.RequireSetAtLeast("reuse_matrix_config_type", 90)
 	r.RequireAtLeast("reuse_matrix_uses_judged", 1500)
 	r.RequireAtLeast("reuse_matrix_boltdb_reads_that_wrote_the_record_back:granularity=0", 150)
 	r.RequireAtLeast("reuse_matrix_boltdb_reads_that_wrote_the_record_back:granularity=1ns", 150)
